@@ -625,6 +625,33 @@ def check(spec, stats):
                     raise Violation("C01/read-data", f"{where} ({x[0].info.path if x else None} chunk {x[1] if x else None}): "
                                     f"r_data={rd:#x}, expected {e:#x}")
 
+        async def burst(ctx, l):
+            """Three complete writes to a one-word register in three consecutive cycles (a held write
+            strobe with changing data): each of them is an access that reaches the register."""
+            k = regs.index(l)
+            a = l.info.start
+            where = f"burst of 3 writes to {l.info.path} at {a:#x}"
+            counts = {}
+            data = [hval(seed, "burst", f"{a}.{j}", unit) for j in range(3)]
+            seen = []
+            for j in range(4):
+                ctx.set(cb.addr, a); ctx.set(cb.r_stb, 0); ctx.set(cb.w_stb, int(j < 3)); ctx.set(cb.w_data, data[min(j, 2)])
+                drive_leaf_values(ctx)
+                before = counts.get(("w", k), 0)
+                sample(ctx, counts, where)
+                if counts.get(("w", k), 0) != before:
+                    seen.append(l.wdata_seen & ((1 << l.width) - 1))
+                tick[0] += 1
+                await ctx.tick()
+            want = [d & ((1 << l.width) - 1) for d in data]
+            got = {key: v for key, v in counts.items() if key[0] in ("r", "w")}
+            if got != {("w", k): 3} or seen != want:
+                raise Violation("C01/leaf-strobes", f"{where}: write strobes {got} with data {[hex(x) for x in seen]}, the memory map "
+                                f"implies three strobes of this register with data {[hex(x) for x in want]}")
+            for o in regs:
+                o.wbuf = {}
+            stats.label("burst_of_writes_to_one_register")
+
         async def tb(ctx):
             for sweep in (0, 1):
                 for we in (0, 1):
@@ -632,6 +659,9 @@ def check(spec, stats):
                         if sweep == 1 and hval(seed, f"skip{we}", a, 2) == 0:
                             continue
                         await access(ctx, a, we, hval(seed, f"cw{sweep}", a, unit), f"sweep {sweep}")
+            for l in regs:
+                if l.writable and l.info.end - l.info.start == 1 and 0 < l.width <= unit and amap[l.info.start] is not None:
+                    await burst(ctx, l)
 
     for l in regs:
         l.snap_new = 0
